@@ -437,6 +437,36 @@ def add_literals(pack):
     c.replay(lambda m, ctx, ob: LIT_REPLAY)
     c.replay_without_model = True
 
+    # ---- the special floats: ##Inf, ##-Inf, ##NaN out, and the same three tokens in
+    import math as _math
+
+    for value, text in ((_math.inf, "##Inf"), (-_math.inf, "##-Inf"), (_math.nan, "##NaN")):
+        c = pack.contract("basilisp.lang.obj:_lrepr_float")
+        c.label = f"printing {text}"
+        c.param_value("o", lambda eng, st, value=value: value)
+        c.param_value("human_readable", lambda eng, st: False)
+        c.raises()
+        c.ensures(f"{value!r} prints as {text}", lambda a, text=text: a.result == V.mk_str(text))
+        c.replay(lambda m, ctx, ob: LIT_REPLAY)
+        c.replay_without_model = True
+
+    c = pack.contract("basilisp.lang.reader:_read_numeric_constant")
+    c.param("ctx", OBJ(rd.ReaderContext))
+    c.setup(ksetup)
+    nm = V.Val.s(NAME_TOK)
+
+    def nc_pre(a):
+        r = R.fld(a.pre.st, a.ctx, "_reader")
+        return z3.And(R.WF(a.eng, a.pre.st, r), R.CH(R.pos(a.pre.st, r)) == V.mk_str("#"), V.is_none(NS_TOK),
+                      z3.Or(nm == z3.StringVal("Inf"), nm == z3.StringVal("-Inf"), nm == z3.StringVal("NaN")))
+
+    c.requires("the reader is well-formed, stands on the second # of ##, and the token is Inf, -Inf or NaN", nc_pre)
+    c.raises()
+    c.ensures("##Inf, ##-Inf and ##NaN read as positive infinity, negative infinity and not-a-number",
+              lambda a: a.result == z3.If(nm == z3.StringVal("Inf"), a.eng.lift(_math.inf, a.post.st), z3.If(nm == z3.StringVal("-Inf"), a.eng.lift(-_math.inf, a.post.st), a.eng.lift(_math.nan, a.post.st))))
+    c.replay(lambda m, ctx, ob: LIT_REPLAY)
+    c.replay_without_model = True
+
     # ---- sequential collections: the literal's text, with the metadata in front of the *whole* literal
     from basilisp.lang import list as llist_, queue as lqueue_, set as lset_, vector as vec_
 
@@ -514,6 +544,13 @@ for v in (kw.keyword("a"), kw.keyword("b", ns="n.s"), kw.keyword("x-y?"), sym.sy
     t = lrepr(v)
     back = list(reader.read_str(t))
     if not (len(back) == 1 and back[0] == v and type(back[0]) is type(v)):
+        bad.append("%r prints as %r which reads as %r" % (v, t, back))
+import math
+for v in (math.inf, -math.inf, math.nan):
+    t = lrepr(v)
+    back = list(reader.read_str(t))
+    same = len(back) == 1 and isinstance(back[0], float) and (back[0] == v or (math.isnan(v) and math.isnan(back[0])))
+    if not same:
         bad.append("%r prints as %r which reads as %r" % (v, t, back))
 from basilisp.lang import vector as vec, list as llist, set as lset, queue as lqueue, map as lmap
 M = lmap.map({kw.keyword("m"): 1})
